@@ -208,6 +208,7 @@ type PathCtx struct {
 	Globals []*ssa.Global
 	Pre    engine.Value // deep snapshot of *target before the call (update methods)
 	SrcSnap engine.Value
+	ArgsPre []engine.Value // deep clone of the arguments before the call (aliasing preserved)
 }
 
 func (pc *PathCtx) Report(kind, path, note string, model map[string]uint64, inconclusive bool) {
@@ -337,7 +338,9 @@ func (d *Driver) exploreOne(cv *Conv, check CheckFn, opt ExploreOpt) *ConvReport
 	}
 	unwind := d.Unwind
 	if unwind == 0 {
-		unwind = d.B.MaxSlice + d.B.MaxMap + 4
+		// loops of emitted code run over concrete lengths (nested loops multiply the visits of an
+		// inner header inside one frame): the bound only guards against divergence
+		unwind = 256
 	}
 	cfg := engine.Config{
 		Name:     cv.ID,
@@ -353,6 +356,9 @@ func (d *Driver) exploreOne(cv *Conv, check CheckFn, opt ExploreOpt) *ConvReport
 	}
 	ex := engine.NewExplorer(d.L.Prog, cfg)
 	b := d.B
+	if cv.Bounds != nil {
+		b = *cv.Bounds
+	}
 	b.Alias = opt.Alias
 	first := true
 	stats := ex.Explore(func(r *engine.Run) {
@@ -406,6 +412,10 @@ func (d *Driver) exploreOne(cv *Conv, check CheckFn, opt ExploreOpt) *ConvReport
 					pc.Globals = append(pc.Globals, g)
 				}
 			}
+		}
+		cm := &cloneMemo{ptr: map[*engine.Value]*engine.Value{}, maps: map[*engine.MapObj]*engine.MapObj{}, sl: map[*engine.Value][]engine.Value{}}
+		for _, a := range pc.Args {
+			pc.ArgsPre = append(pc.ArgsPre, cm.clone(a))
 		}
 		callArgs := pc.Args
 		if t.HasRecv {
@@ -659,4 +669,66 @@ func (d *Driver) Gate(convs []*Conv) (checked int, out []GateFinding) {
 		}
 	}
 	return
+}
+
+// cloneMemo deep-copies values preserving aliasing (used to keep the pre-call arguments for replays).
+type cloneMemo struct {
+	ptr  map[*engine.Value]*engine.Value
+	maps map[*engine.MapObj]*engine.MapObj
+	sl   map[*engine.Value][]engine.Value
+}
+
+func (c *cloneMemo) clone(v engine.Value) engine.Value {
+	switch v := v.(type) {
+	case engine.Pointer:
+		if v.Slot == nil {
+			return v
+		}
+		if n, ok := c.ptr[v.Slot]; ok {
+			return engine.Pointer{Slot: n}
+		}
+		n := new(engine.Value)
+		c.ptr[v.Slot] = n
+		*n = c.clone(*v.Slot)
+		return engine.Pointer{Slot: n}
+	case engine.Struct:
+		n := make(engine.Struct, len(v))
+		for i := range v {
+			n[i] = c.clone(v[i])
+		}
+		return n
+	case engine.Array:
+		n := make(engine.Array, len(v))
+		for i := range v {
+			n[i] = c.clone(v[i])
+		}
+		return n
+	case engine.Slice:
+		if v.Nil || len(v.Elems) == 0 {
+			return v
+		}
+		if n, ok := c.sl[&v.Elems[0]]; ok {
+			return engine.Slice{Elems: n, Len: v.Len}
+		}
+		n := make([]engine.Value, len(v.Elems))
+		c.sl[&v.Elems[0]] = n
+		for i := range v.Elems {
+			n[i] = c.clone(v.Elems[i])
+		}
+		return engine.Slice{Elems: n, Len: v.Len}
+	case engine.Map:
+		if v.M == nil {
+			return v
+		}
+		if n, ok := c.maps[v.M]; ok {
+			return engine.Map{M: n}
+		}
+		n := &engine.MapObj{ID: v.M.ID}
+		c.maps[v.M] = n
+		for _, e := range v.M.Entries {
+			n.Entries = append(n.Entries, &engine.MapEntry{K: c.clone(e.K), V: c.clone(e.V)})
+		}
+		return engine.Map{M: n}
+	}
+	return v
 }
